@@ -10,5 +10,7 @@ for c in "$@"; do
   (cd /verif && ./check $c $tier | grep -E "VIOLATION|KNOWN-FINDING|key=|done in|MACHINERY" | head -12)
 done
 cd /repo && git checkout -q -- . && git status --short | head -3
+# rebuild the harness against the restored tree so that no mutated binary is left behind
+(cd /verif/harness && CARGO_NET_OFFLINE=true cargo build --release --quiet 2>/dev/null)
 # restore evidence written on the mutated tree
 cd /verif && git checkout -q -- evidence 2>/dev/null
